@@ -159,6 +159,24 @@ def run(chk):
     rets = [n for n in walk_no_nested(fn) if isinstance(n, ast.Return)]
     chk.check(len(rets) == 1 and unparse(rets[0].value) == '(psort, starts, wsort)', 'C17-R6', TSC, Q, 'returns (psort, starts, wsort)', '',
               f'returns {[unparse(r.value) for r in rets]}', node=rets[0] if rets else fn)
+    # ---- R6: the outputs have the element type of their inputs (a buffer of another type silently casts every value)
+    for out, inp in (('psort', 'pos'), ('wsort', 'weights')):
+        allocs = [n for n in walk_no_nested(fn) if isinstance(n, ast.Assign) and len(n.targets) == 1 and unparse(n.targets[0]) == out
+                  and not (isinstance(n.value, ast.Constant) and n.value.value is None)]
+        for a in allocs:
+            v = a.value
+            cn = dotted(v.func) if isinstance(v, ast.Call) else None
+            ok = False
+            if cn in ('np.empty_like', 'np.zeros_like') and v.args and unparse(v.args[0]) == inp and not any(k.arg == 'dtype' for k in v.keywords):
+                ok = True
+            elif cn in ('np.empty', 'np.zeros'):
+                dt = [k.value for k in v.keywords if k.arg == 'dtype'] or list(v.args[1:2])
+                ok = bool(dt) and unparse(dt[0]) == f'{inp}.dtype'
+            chk.check(ok, 'C17-R6', TSC, Q, f'{out} has the element type of {inp}', unparse(v)[:60],
+                      f'{out} = {unparse(v)[:80]}: not allocated with the dtype of {inp}, so every {inp} value is cast on the way out (rounded or truncated when the types differ)',
+                      node=a)
+        if not allocs:
+            chk.refuted('C17-R6', TSC, Q, f'{out} has the element type of {inp}', f'no allocation of {out} found', node=fn)
     # ---- R7 bounds
     from ..core.kernels import add_bounds_obligations
     add_bounds_obligations(chk, 'C17-R7', TSC, Q, CONTRACTS)
